@@ -2,8 +2,9 @@
 """seed_prompt.py <ID>: prints the prompt given to a seeding sub-agent (property text + worktree path only)."""
 import json, sys
 ID = sys.argv[1]
+BATCH2 = len(sys.argv) > 2 and sys.argv[2] == 'batch2'
 prop = [json.loads(l) for l in open('/verif/properties.jsonl') if json.loads(l)['id'] == ID][0]
-print(f"""You are helping test a verification effort for the Go project zllovesuki/specter (a reverse-tunnel overlay network whose edge nodes form a Chord DHT with a KV store and leases, over QUIC). You have your own scratch git worktree of the repository at /tmp/seed/{ID} (work ONLY there; never touch /repo or /verif, and do not read anything under /verif). Output goes to /tmp/seed/{ID}.out/ .
+text = (f"""You are helping test a verification effort for the Go project zllovesuki/specter (a reverse-tunnel overlay network whose edge nodes form a Chord DHT with a KV store and leases, over QUIC). You have your own scratch git worktree of the repository at /tmp/seed/{ID} (work ONLY there; never touch /repo or /verif, and do not read anything under /verif). Output goes to /tmp/seed/{ID}.out/ .
 
 Here is one semantic property of the code base that should hold:
 
@@ -29,3 +30,15 @@ Write into /tmp/seed/{ID}.out/m1/ and /tmp/seed/{ID}.out/m2/ :
   meta.json     - {{"property": "{ID}", "summary": "<what was changed, file and function>", "why_it_breaks": "<how the property statement is violated>", "needs_to_manifest": "<the specific input / sequence / interleaving / fault needed>", "demo_pkg_dir": "<package directory relative to the repo root, e.g. kv/aof>", "demo_file_name": "zz_seed_{ID}_mN_test.go", "demo_cmd": "go test -vet=off -count=1 -run <TestName> ./<pkg>", "existing_tests_run": ["<commands you ran that passed with the change>"]}}
 
 When finished leave the worktree clean (git checkout -- . ; no stray files) and reply with a short summary of the two changes and the exact commands you ran. If you cannot find a second change that passes the existing tests, deliver one and say so.""")
+if BATCH2:
+    import glob, os
+    text = text.replace('"m1"', '"m3"').replace('"m2"', '"m4"').replace('/m1/', '/m3/').replace('/m2/', '/m4/').replace('m1, m2', 'm3, m4').replace('(m2 must be', '(m4 must be').replace('stacked on m1', 'stacked on m3')
+    known = []
+    for d in sorted(glob.glob(f'/verif/seeded/{ID}_m*')):
+        try:
+            known.append('  - ' + json.load(open(d + '/meta.json'))['summary'])
+        except Exception:
+            pass
+    if known:
+        text += "\n\nThese changes are already known; do NOT repeat them or trivial variants of them, and prefer a different function or mechanism of the property:\n" + "\n".join(known)
+print(text)
